@@ -79,19 +79,6 @@ Definition addressed (v : version) (o : obj) (r : areq) : option (target * actio
     end
   end.
 
-(* the one input class on which the repaired code still misbehaves (known finding C15-empty-name-delete): KMIP 2.0
-   DeleteAttribute whose current attribute is a Name with the EMPTY text - the unwrapped text is tested for truth, is
-   falsy, and the handler falls into the delete-all branch *)
-Definition deletes_empty_name (v : version) (r : areq) : bool :=
-  match r with
-  | RDelete p =>
-    is_v2 v && match d_current p with
-               | Some (Some n, VText t) => String.eqb n "Name" && String.eqb t ""
-               | _ => false
-               end
-  | _ => false
-  end.
-
 (* everything of the object outside the addressed attribute *)
 Definition rest_equal (f : option mfield) (o o' : obj) : Prop :=
   protected o' = protected o /\ o_certtype o' = o_certtype o /\
